@@ -2427,7 +2427,9 @@ class Component(System):
                     if 'J_fd' not in deriv:
                         deriv['J_fd'] = []
                         deriv['steps'] = []
-                    deriv['J_fd'].append(fd_partial)
+                    # the checking jacobian may hand out its own storage, which (for a dense partial)
+                    # is also the storage of the next step's jacobian
+                    deriv['J_fd'].append(fd_partial.copy())
                     deriv['steps'] = actual_steps[rel_key]
                     deriv['rows'] = subjacs_info['rows']
                     deriv['cols'] = subjacs_info['cols']
